@@ -24,7 +24,7 @@ def run(chk, replay=None):
     if replay is not None:
         chk.only(replay, keys=("clause", "fmt", "path"))
     rng = random.Random(chk.seed)
-    n = 60 if chk.quick else 12000
+    n = 60 if chk.quick else 30000
     events = []
     for fmt in FORMATS:
         dec = datafmt.decoder(fmt)
